@@ -43,7 +43,7 @@ def run(ctx):
                 defines = [("DEF_A", rng.randrange(0, 0x100)), ("DEF_B", rng.randrange(0x100, 0xFFFF))][:ndef]
                 src = pr["src"]
                 if ndef:
-                    src += "*=0x%06x\n" % ({"low_rom": 0x6F8000, "low_rom_2": 0xCF8000, "high_rom": 0xFF0000}[rom]) + "".join(f".dw {k}\nlda.w #{k} + 1\n" for k, _ in defines)
+                    src += "*=0x%06x\n" % ({"low_rom": 0x1F8000, "low_rom_2": 0x9F8000, "high_rom": 0xCF0000}[rom]) + "".join(f".dw {k}\nlda.w #{k} + 1\n" for k, _ in defines)
                 base = impl.assemble(src, rom, defines=defines, cwd=run_.tmp)
                 if base["status"] != "ok":
                     s.count("base-rejected")
@@ -94,29 +94,59 @@ def run(ctx):
                             s.violate(inp, "flat image = in-memory blocks (= IPS applied to an empty image)", f"{len(data)} bytes", "SFC front end does not produce the in-memory bytes at the in-memory offsets")
         s.sample({"lattice_points": len(lattice)})
 
-        s2 = core.Stream("S8-symbol-file", "exports_symbol_file after assembling generated programs: one line 'bb:oooo name' per label definition made outside loop iterations, with the bank and offset of its value; compared with the model's symbolFile")
-        for i in range(15 if tier == "quick" else 150):
-            pr = gen_program.generate(rng, drv)
-            from a816.cpu.cpu_65c816 import RomType
-            from a816.program import Program
+        # SFC writer: block sequences whose offsets coincide with the number of bytes written so far, overlaps, gaps
+        s3 = core.Stream("S8-sfc-layout", "flat-image output of programs with several non-contiguous blocks (a later block placed at the offset equal to the bytes written so far, blocks out of order, overlapping re-writes, gaps) through Program.assemble and x816 -f sfc: image = in-memory blocks = IPS patch applied to an empty image")
+        for i in range(12 if tier == "quick" else 120):
+            n1 = rng.randrange(1, 9)
+            first = rng.choice([0x018000, 0x028000, 0x008100])
+            second = rng.choice([0x008000 + n1, 0x008000, 0x008000 + n1 + 1, first + 2])
+            n2 = rng.randrange(1, 6)
+            src = f"*=0x{first:06x}\n.db " + ", ".join(str(rng.randrange(256)) for _ in range(n1)) + f"\n*=0x{second:06x}\n.db " + ", ".join(str(rng.randrange(256)) for _ in range(n2)) + "\n"
+            base = impl.assemble(src, "low_rom", cwd=run_.tmp)
+            if base["status"] != "ok":
+                continue
+            img = image_of(base["blocks"])
+            for e in ("api", "cli") if i % 3 == 0 else ("api",):
+                if e == "api":
+                    rep, data, _, _ = frontends.file_api("assemble", src, run_.tmp)
+                    rep2, ips, _, _ = frontends.file_api("patch", src, run_.tmp)
+                else:
+                    rep, data, _, _ = frontends.cli(src, run_.tmp, fmt="sfc")
+                    ips = None
+                s3.cases += 1
+                s3.nontrivial.add((n1, first, second - 0x008000, e))
+                extent = max(img) + 1
+                if data is None or len(data) != extent or any(data[k] != img.get(k, 0) for k in range(extent)):
+                    s3.violate({"src": src, "entry": e}, "flat image of the in-memory blocks", None if data is None else data[:16].hex(), "SFC output does not hold the in-memory bytes at the in-memory offsets")
+                if ips is not None:
+                    sp = drv.ask([f"spec.ipsparse {ips.hex() or '-'}"])[0]
+                    if sp.startswith("some") and data is not None:
+                        pimg = apply_records(parse_blocks(sp[5:] if len(sp) > 5 else "-"))
+                        if any(data[k] != pimg.get(k, 0) for k in range(len(data))) or (pimg and max(pimg) + 1 != len(data)):
+                            s3.violate({"src": src}, "SFC image = IPS patch applied to an empty image", "differs", "the two output formats disagree")
+        s3.sample({"shape": "*=A .db n1 bytes / *=0x008000+n1 .db n2 bytes"})
+
+        s2 = core.Stream("S8-symbol-file", "exports_symbol_file after assembling generated programs (and programs that define the same label name in several scopes at the same address): every label definition emitted outside a loop-iteration scope appears once, as 'bb:oooo name' with the bank and offset of its value (oracle from the per-node trace); the text is also compared with the model's symbolFile")
+        from a816.cpu.cpu_65c816 import RomType
+        from a816.program import Program
+        progs2 = [gen_program.generate(rng, drv) for _ in range(15 if tier == "quick" else 150)]
+        progs2.append({"src": "*=0x008000\n.scope vectors {\nentry:\n}\n.scope main {\nentry:\nrts\n}\ndup:\n{\ndup:\n}\n", "rom": "low_rom", "files": {}, "bins": {}, "stmts": []})
+        for pr in progs2:
+            tr = impl.trace_assemble(pr["src"], pr["rom"], cwd=(impl.write_files(run_.tmp, pr["files"], pr["bins"]) or run_.tmp))
+            if tr["status"] != "ok" or tr.get("nodes") is None:
+                continue
             w = impl.CollectWriter()
-            try:
-                with impl.quiet():
-                    p = Program()
-                    p.resolver.rom_type = RomType[pr["rom"]]
-                    impl.write_files(run_.tmp, pr["files"], pr["bins"])
-                    old = os.getcwd()
-                    os.chdir(run_.tmp)
-                    try:
-                        err = p.assemble_string_with_emitter(pr["src"], "main.s", w)
-                        out = os.path.join(run_.tmp, "syms.txt")
-                        p.exports_symbol_file(out)
-                    finally:
-                        os.chdir(old)
-            except Exception:  # noqa: BLE001
-                continue
-            if err is not None:
-                continue
+            with impl.quiet():
+                p = Program()
+                p.resolver.rom_type = RomType[pr["rom"]]
+                old = os.getcwd()
+                os.chdir(run_.tmp)
+                try:
+                    p.assemble_string_with_emitter(pr["src"], "main.s", w)
+                    out = os.path.join(run_.tmp, "syms.txt")
+                    p.exports_symbol_file(out)
+                finally:
+                    os.chdir(old)
             text = open(out, encoding="utf-8").read()
             labels = p.resolver.get_all_labels()
             s2.cases += 1
@@ -124,22 +154,19 @@ def run(ctx):
             m_ = drv.ask(["symfile " + (";".join(f"{k.encode().hex()}={v}" for k, v in labels) or "-")])[0]
             if m_ != (text.encode().hex() or "-"):
                 s2.disagree({"src": pr["src"][:300]}, m_[:100], text[:100])
-            lines = text.split("\n")
-            exp_lines = ["[labels]"] + [f"{(v >> 16) & 0xFF:2x}:{v & 0xFFFF:4x} {k}" for k, v in labels] + [""]
-            # labels defined outside loop iterations: the statement tree tells which names are loop-local
-            import twins
-            loop_local = set()
-            for st in twins.walk(pr["stmts"]):
-                if st[0] == "for":
-                    loop_local.update(twins.labels_in(st[4]))
-            top_defs = [x for x in twins.labels_in(pr["stmts"]) if x not in loop_local]
-            listed = [l.split(" ", 1)[1] for l in lines[1:] if " " in l.strip()]
-            if lines != exp_lines:
-                s2.violate({"src": pr["src"][:400]}, exp_lines[:5], lines[:5], "symbol file lines are not 'bank:offset name' of each label")
-            for name in listed:
-                if name in loop_local and name not in top_defs:
-                    pass
+            lines = sorted(l for l in text.split("\n")[1:] if l)
+            exp = sorted(f"{(n['run'] >> 16) & 0xFF:2x}:{n['run'] & 0xFFFF:4x} {n['name']}" for n in tr["nodes"]
+                         if n["cls"] in ("LabelNode", "BinaryNode") and n.get("scope_cls") != "InternalScope")
+            # a name defined twice in one scope is one dict entry: the file then has one line for it (last value)
+            if lines != exp and not text.startswith("[labels]\n"):
+                s2.violate({"src": pr["src"][:400]}, "[labels] header", text[:20], "symbol file header missing")
+            elif lines != exp:
+                import collections
+                ce, cl = collections.Counter(exp), collections.Counter(lines)
+                missing = list((ce - cl).elements())[:3]
+                extra = list((cl - ce).elements())[:3]
+                s2.violate({"src": pr["src"][:600]}, {"missing": missing}, {"unexpected": extra}, "symbol file does not list each label definition outside loop iterations once with its bank and offset")
         s2.sample({"format": "bb:oooo name"})
-        return [s, s2]
+        return [s, s2, s3]
     finally:
         run_.close()
